@@ -1075,6 +1075,7 @@ class SMTPClient(basic.LineReceiver, policies.TimeoutMixin):
             self.sendLine(b"RCPT TO:" + quoteaddr(self.lastAddress))
 
     def smtpState_data(self, code, resp):
+        self._bodyAtLineStart = True
         s = basic.FileSender()
         d = s.beginFileTransfer(self.getMailData(), self.transport, self.transformChunk)
 
@@ -1100,6 +1101,10 @@ class SMTPClient(basic.LineReceiver, policies.TimeoutMixin):
     ##
     ## Helpers for FileSender
     ##
+    # Whether the next byte of message data handed to transformChunk starts a
+    # line.
+    _bodyAtLineStart = True
+
     def transformChunk(self, chunk):
         """
         Perform the necessary local to network newline conversion and escape
@@ -1109,7 +1114,14 @@ class SMTPClient(basic.LineReceiver, policies.TimeoutMixin):
         being made sending the message body, the client will not time out.
         """
         self.resetTimeout()
-        return chunk.replace(b"\n", b"\r\n").replace(b"\r\n.", b"\r\n..")
+        chunk = chunk.replace(b"\n", b"\r\n").replace(b"\r\n.", b"\r\n..")
+        # The period which starts the message, or which starts a chunk right
+        # after a line ending, has no preceding newline within this chunk.
+        if self._bodyAtLineStart and chunk[:1] == b".":
+            chunk = b"." + chunk
+        if chunk:
+            self._bodyAtLineStart = chunk[-1:] == b"\n"
+        return chunk
 
     def finishedFileTransfer(self, lastsent):
         if lastsent != b"\n":
